@@ -112,9 +112,16 @@ def make_case(rnd):
                 files[norm_url(base[:base.rfind('/') + 1] + 'inc/' + inner_name)] = ib + f"\nsystemLog('inner {k}')"
                 inner.append(f"include '{inner_name}'")
             text = '\n'.join(inner + [f"function incf{k}(x):\n    iy = x + {k}\n    return iy\nendfunction",
-                                      f"systemLog('inc {k} ' + incf{k}(1))", body])
+                                      f"systemLog('inc {k} ' + incf{k}(1))", body] +
+                             # (a function of the MAIN script called from inside the included file, when the main script defined it first)
+                             (["systemLog('helper ' + if(mainHelper != null, mainHelper(2), 'none'))"] if k == 0 else []))
             files[norm_url(base[:base.rfind('/') + 1] + 'inc/' + name)] = text
             lines.insert(rnd.randint(0, len(lines)), f"include 'inc/{name}'")
+        # functions defined by the included files called from the main script afterwards, a main-script function called by the include
+        for k in range(ninc):
+            lines.append(f"systemLog('main calls ' + incf{k}({k + 3}) + incf{k}(1))")
+        if rnd.random() < 0.6:
+            lines.insert(0, "function mainHelper(x):\n    mh = x * 2\n    mh = mh + 1\n    return mh\nendfunction")
         lines.append("systemLog('after includes')")
     if fam == 'failing-include-in-function':
         # an include executed INSIDE a script function runs some statements and then fails (its own include names a file with a
